@@ -1889,11 +1889,15 @@ class CParser:
                 init = self._parse_initializer_list()
                 self._accept("COMMA")
                 self._expect("RBRACE")
-                return c_ast.CompoundLiteral(typ, init)
+                # A compound literal is a postfix expression: it may be
+                # followed by postfix operators, e.g. (int[]){1, 2}[0].
+                expr = c_ast.CompoundLiteral(typ, init)
             else:
                 self._reset(mark)
+                expr = self._parse_primary_expression()
+        else:
+            expr = self._parse_primary_expression()
 
-        expr = self._parse_primary_expression()
         while True:
             if self._accept("LBRACKET"):
                 sub = self._parse_expression()
